@@ -563,6 +563,18 @@ def decompose(test, polarity: bool) -> List[Tuple[ast.AST, bool]]:
     return [(test, polarity)]
 
 
+def branch_atoms(b) -> List[Tuple[str, bool]]:
+    """(atom text, polarity) pairs that hold in branch node `b`: `if not x: A else: B` gives B the atom (x, True), so a
+    rule that asks "the branch where x holds" is indifferent to which arm the code is written in"""
+    if b.kind != "branch" or b.is_for or b.test is None:
+        return []
+    return [(unparse(a), bool(p)) for a, p in decompose(b.test, b.polarity)]
+
+
+def branch_has(b, text: str, pol: bool = True) -> bool:
+    return (text, pol) in branch_atoms(b)
+
+
 class Facts:
     """facts_at(n): list of (atom_ast, polarity, branch_node) that must hold whenever n executes."""
 
